@@ -201,7 +201,11 @@ theorem deriv_pointLineDistance (p : Pt) (l : Seg) (d : ℝ) (hreg : RegularPLD 
     filter_upwards [e1] with t t1
     simp only [Constraint.residualV, hypot_real]
     rw [if_neg t1]
-    rfl
+    -- (the code computes the numerator relative to the line's first point since fix 7c5f1bc; it is
+    -- the same real number as `A·px + B·py + C`)
+    show _ / _ - d = _ / _ - d
+    congr 2
+    ring
   unfold DerivRow
   refine HasDerivAt.congr_of_eventuallyEq ?_ hev
   simp only [Constraint.jacobianV, hypot_real, powf_real, sqr]
